@@ -523,6 +523,38 @@ func (p *Prog) ReachBlockWithout(start *ssa.BasicBlock, idx int, pred *ssa.Basic
 	return s.Run(start, idx, pred)
 }
 
+// reloadAliases: v and the reloads, later in the same block, of a cell v is stored to (`err = v; if err != nil` on a
+// named result or captured variable).
+func reloadAliases(v ssa.Value) []ssa.Value {
+	out := []ssa.Value{v}
+	if v.Referrers() == nil {
+		return out
+	}
+	for _, r := range *v.Referrers() {
+		st, ok := r.(*ssa.Store)
+		if !ok || st.Val != v {
+			continue
+		}
+		after := false
+		for _, in := range st.Block().Instrs {
+			if in == ssa.Instruction(st) {
+				after = true
+				continue
+			}
+			if !after {
+				continue
+			}
+			if s2, ok := in.(*ssa.Store); ok && s2.Addr == st.Addr {
+				break
+			}
+			if u, ok := in.(*ssa.UnOp); ok && u.Op == token.MUL && u.X == st.Addr {
+				out = append(out, u)
+			}
+		}
+	}
+	return out
+}
+
 // SuccessBlocks returns, for a call value c (an instruction producing an error or a tuple with
 // an error), the blocks entered exactly when the error was nil (single-predecessor successors
 // of an `if err != nil` / `if err == nil` on that error value).
@@ -591,6 +623,82 @@ func (p *Prog) SuccessBlocks(c ssa.Value) []*ssa.BasicBlock {
 				}
 				if len(succ.Preds) == 1 {
 					out = append(out, succ)
+				}
+			}
+		}
+	}
+	// the error merged with others into one result (`e := phi(err | nil)`, the shape an inlined helper's result
+	// has): the nil side of a test of e is entered only through predecessors whose value can be nil; when each of
+	// those lies in a success block already found, so does the nil side
+	var fn *ssa.Function
+	if in, ok := c.(ssa.Instruction); ok {
+		fn = in.Parent()
+	}
+	if fn == nil || len(out) == 0 {
+		return out
+	}
+	for changed, round := true, 0; changed && round < 4; round++ {
+		changed = false
+		for _, b := range fn.Blocks {
+			for _, in := range b.Instrs {
+				ph, ok := in.(*ssa.Phi)
+				if !ok {
+					break
+				}
+				if !IsErrorType(ph.Type()) {
+					continue
+				}
+				allIn, any := true, false
+				for i, e := range ph.Edges {
+					pred := b.Preds[i]
+					if !IsNilConst(e) && p.ValState(e, pred, nil) == NonNil {
+						continue
+					}
+					any = true
+					inside := false
+					for _, sb := range out {
+						if sb.Dominates(pred) {
+							inside = true
+						}
+					}
+					if !inside {
+						allIn = false
+					}
+				}
+				if !allIn || !any {
+					continue
+				}
+				for _, alias := range reloadAliases(ph) {
+					for _, r := range *alias.Referrers() {
+						bo, ok := r.(*ssa.BinOp)
+						if !ok {
+							continue
+						}
+						for _, rr := range *bo.Referrers() {
+							ifi, ok := rr.(*ssa.If)
+							if !ok {
+								continue
+							}
+							cv, trueMeansNil, ok := NilCmp(ifi.Cond)
+							if !ok || cv != alias {
+								continue
+							}
+							succ := ifi.Block().Succs[1]
+							if trueMeansNil {
+								succ = ifi.Block().Succs[0]
+							}
+							dup := false
+							for _, sb := range out {
+								if sb == succ {
+									dup = true
+								}
+							}
+							if len(succ.Preds) == 1 && !dup {
+								out = append(out, succ)
+								changed = true
+							}
+						}
+					}
 				}
 			}
 		}
